@@ -645,6 +645,7 @@ func (r *foRun) client(ci int) {
 
 		switch op.Kind {
 		case "sleep":
+			r.e.out.fault("clock_jump")
 			zs.Sleep(dur(op.SleepNs))
 		case "get":
 			shared = r.doGet(ci, oi, op, shared)
